@@ -951,9 +951,14 @@ def vptr_script(rng, sid, policies, n=None):
         h = nexth[0]
         nexth[0] += 1
         k = rng.randrange(len(chain))
-        route = rng.choice(["ref", "ref", "ref", "final", "sh_lv", "sh_rv", "sh_base", "sh_final", "mk"])
+        route = rng.choice(["ref", "ref", "ref", "final", "sh_lv", "sh_rv", "sh_base", "sh_final", "mk", "refup", "sh_up"])
+        if route in ("refup", "sh_up") and k + 1 >= len(chain):
+            route = "ref"
         if route in ("final", "sh_final", "mk"):
             dyn = chain[k]
+        elif route in ("refup", "sh_up"):
+            # the argument's static type is the next class of the chain; its dynamic class is that class or below
+            dyn = rng.choice(cov[chain[k + 1]]) if rng.random() < 0.5 else chain[k + 1]
         else:
             dyn = rng.choice(cov[chain[k]]) if rng.random() < 0.7 else chain[k]
         s.vmake(h, k, route, dyn)
@@ -1132,6 +1137,8 @@ def unknown_scripts(rng, count, policies):
                 if chain_root is not None:
                     s.vmake(h, 0, "ref", x); h += 1            # base reference to an object of the unregistered class
                     s.vmake(h, 1, "ref", x); h += 1            # exact static type, unregistered
+                    s.vmake(h, 0, "refup", x); h += 1          # virtual_ptr<Base> from an lvalue of the unregistered derived type
+                    s.vmake(h, 0, "sh_up", x); h += 1
                     s.vmake(h, 1, "final", x); h += 1
                     s.vmake(h, 0, "sh_lv", x); h += 1
                     s.vmake(h, 1, "sh_rv", x); h += 1
